@@ -328,16 +328,16 @@ def main():
     # ---- implementation side
     ok, impl_bin, out = build_harness(False)
     if not ok:
+        # the crate (or the harness against the crate's public API: a removed function, a changed signature, a type that is no longer
+        # Send / Clone / PartialEq) no longer compiles: the correspondence cannot even be run, so the tie is broken
         log("[%s] harness does not build against %s:\n%s" % (pid, REPO, tail(out, 40)))
-        log("ERROR property=%s cannot build the implementation" % pid)
-        return 2
+        return no_build(pid, rdir, "default-math", out)
     backends = [("num", impl_bin)]
     if getattr(mod, "BOTH_BACKENDS", False):
         ok2, impl2, out2 = build_harness(True)
         if not ok2:
             log("[%s] fast-math harness does not build:\n%s" % (pid, tail(out2, 40)))
-            log("ERROR property=%s cannot build the srp-fast-math implementation" % pid)
-            return 2
+            return no_build(pid, rdir, "srp-fast-math", out2)
         backends.append(("rug", impl2))
 
     rng = random.Random(seed * 1000003 + int(hashlib.sha1(pid.encode()).hexdigest()[:8], 16))
@@ -496,6 +496,21 @@ def main():
     log("[%s] %s: theorems %d/%d, cases %d, model disagreements %d, oracle failures %d, %.1fs" % (
         pid, "OK" if rc == 0 else "FAIL", lean["discharged"], lean["obligations"], len(cases), len(disagreements), len(oracle_fail), time.time() - t_start))
     return rc
+
+def no_build(pid, rdir, which, out):
+    path = os.path.join(rdir, "%s_%d.json" % (pid, int(time.time())))
+    json.dump(dict(property=pid, kind="tie-or-proof-broken", correspondence="the harness (harness/src/main.rs, which uses the crate's whole public API, moves halves "
+                   "across threads, clones and compares the objects) no longer builds against the working tree (%s build)" % which,
+                   compiler_output=tail(out, 60)), open(path, "w"), indent=1)
+    ev = dict(property_id=pid, tier="quick", seed=0, level="proof",
+              coverage=dict(obligations=0, discharged=0, checker_cmd="cargo build (harness)", trusted_base=[], evaluations=0, distinct_nontrivial=0,
+                            explanation="the implementation side could not be built: " + tail(out, 5)), assumptions=[], wall_s=0, violations=1)
+    try:
+        json.dump(ev, open(os.path.join(EVID, pid + ".json"), "w"), indent=1)
+    except Exception:
+        pass
+    log("VIOLATION property=%s replay=%s no-failing-input-found" % (pid, path))
+    return 1
 
 def match_known(known, pid, f):
     for k in known.get("findings", []):
